@@ -30,7 +30,7 @@ func main() {
 		os.Exit(2)
 	}
 	r1 := c20ops.RunConc(env, ops, 16)
-	r2 := c20ops.RunConc(env, ops, 16)
+	r2 := c20ops.RunConcGC(env, ops, 16)
 	b, _ := json.Marshal([][]string{r1, r2})
 	os.WriteFile(os.Args[3], b, 0o644)
 }
